@@ -3,9 +3,11 @@ namespace Drand.Driver.CrashD
 open Drand.Persist
 
 /-- engine `crash`: one node driven through a scripted history; answers list every crash image of the step
-with what a restart finds in it (same line protocol as harness/cmd/verifh/crash.go after canonicalisation). -/
+with what a restart finds in it (same line protocol as harness/cmd/verifh/crash.go after canonicalisation).
+The file-write primitive is the variant the tree under test has (`codeWriteMode`, from the regenerated
+`Gen.keySaveVariant`): the driver is rebuilt against lean/Gen on every check. -/
 structure CrashSt where
-  disk : Disk := ⟨[], ⟨.fresh, none⟩, .absent, .absent⟩
+  disk : Disk := .clean [] ⟨.fresh, none⟩ .absent .absent
   members : List (Nat × Bool) := []   -- epoch ↦ is this node in the epoch's group
   lastEp : Nat := 0
   running : Bool := false             -- a beacon handler exists (the chain store is open)
@@ -61,6 +63,8 @@ def showChain (l : List Nat) : String :=
 def fileName : File → String
   | .group => "group"
   | .share => "share"
+  | .groupTmp => "group.tmp"
+  | .shareTmp => "share.tmp"
 
 def opLabel : Op → String
   | .boltPut r => s!"Put({r})"
@@ -71,6 +75,7 @@ def opLabel : Op → String
   | .chmod f => s!"Chmod({fileName f})"
   | .write f _ => s!"Write({fileName f})"
   | .remove f => s!"Remove({fileName f})"
+  | .rename a b => s!"Rename({fileName a},{fileName b})"
 
 def className : TornClass → String
   | .bad => "bad" | .panics => "panics" | .same => "same" | .accepted => "accepted"
@@ -93,6 +98,16 @@ def labelledCuts (member : Nat → Bool) (d : Disk) (ops : List Op) : List Strin
       match ops[k]? with
       | some op => [s!"{opLabel op}@{className cl};{rc}"]
       | none => []
+
+/-- the steps an observer of the directory can see: removing a file that is not there leaves no trace (`os.RemoveAll`
+of a missing path succeeds silently; the harness reconstructs the steps from the inotify event stream) -/
+def observable (d : Disk) : List Op → List Op
+  | [] => []
+  | op :: rest =>
+    let keep : Bool := match op with
+      | .remove f => d.getFile f != .absent
+      | _ => true
+    (if keep then [op] else []) ++ observable (apply d op) rest
 
 def parseOrder (s : String) : Option (List Stage) :=
   (s.splitOn ",").mapM fun x =>
@@ -129,7 +144,7 @@ def crashStep (s : CrashSt) (f : List String) : CrashSt × String :=
     if kind = "skip" then (s1, "skipped") else
     if !s.hasBp then (s, "no-node") else
     let order := (opts.filterMap fun o => if o.startsWith "order=" then parseOrder (o.drop 6).toString else none).head?.getD codeOrder
-    let ops := if me then completionOpsIn order e else evictionOpsIn order e
+    let ops := observable s.disk (if me then completionOpsIn codeWriteMode order e else evictionOpsIn codeWriteMode order e)
     let cuts := labelledCuts s1.member s.disk ops
     let trace := ",".intercalate (ops.map opLabel)
     let d' := run s.disk ops
@@ -149,6 +164,12 @@ def crashStep (s : CrashSt) (f : List String) : CrashSt × String :=
         let ld (x : Disk) := showOutcome (recover asIs s.member x).outcome
         (d', outs ++ [s!"put{r}:tx=1:before\{load={ld d};chain={showChain d.chain}}:after\{load={ld d'};chain={showChain d'.chain}}"])) (s.disk, [])
       ({ s with disk := d }, " | ".intercalate outs)
+  | ["stray", which] =>
+    -- a stale temporary sibling left by an earlier interrupted Save: undecodable, never loaded
+    if !s.hasBp then (s, "no-node") else
+    if which = "group" then ({ s with disk := s.disk.setFile .groupTmp (.torn s.lastEp .bad) }, "ok")
+    else if which = "share" then ({ s with disk := s.disk.setFile .shareTmp (.torn s.lastEp .bad) }, "ok")
+    else (s, "bad-op")
   | ["load"] =>
     (s, s!"rest;{showRec (recover asIs s.member s.disk)};chain={showChain s.disk.chain}")
   | ["restart"] =>
